@@ -376,8 +376,9 @@ def optimisation_case(ctx, rng, idx):
             for k, (name, _id) in enumerate(pos):
                 row = rows.iloc[k]
                 idv = row['ID']
-                same_id = (idv == _id) or (
-                    _id is None and (idv is None or idv != idv))
+                # (population-level entries have the ID None, as get_id()
+                # says: a NaN is not None for code that reads the table)
+                same_id = (idv is None) if _id is None else (idv == _id)
                 if row['Parameter'] != name or not same_id or \
                         row['Estimate'] != ests[r][0][k] or \
                         row['Score'] != ests[r][1]:
@@ -639,13 +640,19 @@ def real_run_case(ctx, rng, idx):
                           'real_run_entry_mismatch',
                           {'parameter': name, 'id': _id}, feats)
             return
-    if idx % 4 == 0:
+    if idx % 2 == 0:
         _INJECT['seen_opt'] = []
+        transformed = idx % 4 == 0
+        feats['search_space_transformation'] = transformed
         try:
             oc = chi.OptimisationController(post, seed=idx)
             oc.set_n_runs(2)
             oc.set_parallel_evaluation(False)
             oc.set_optimiser(pints.NelderMead)
+            if transformed:
+                # (defined for parameters of any sign)
+                oc.set_transform(pints.ScalingTransformation(
+                    np.full(post.n_parameters(), 2.5)))
             tab = oc.run(n_max_iterations=15)
         except Exception as e:      # noqa
             ctx.violation_exc('optimisation_controller_raises', e,
@@ -657,11 +664,22 @@ def real_run_case(ctx, rng, idx):
         for r, (x, s) in enumerate(seen or []):
             rows = tab[tab['Run'] == r + 1]
             if len(rows) != len(x) or not np.array_equal(
-                    rows['Estimate'].to_numpy(dtype=float), x) or \
-                    not np.all(rows['Score'].to_numpy(dtype=float) == s):
+                    rows['Estimate'].to_numpy(dtype=float), x):
                 ctx.violation('optimisation_table_pairs_estimates',
                               'real_optimisation_mismatch', {'run': r + 1},
                               feats)
+                return
+            # the score listed next to the estimates is their log-posterior
+            # (evaluated here, not taken from the optimiser)
+            want = float(post(np.asarray(x, dtype=float)))
+            got = rows['Score'].to_numpy(dtype=float)
+            ctx.count('optimisation_scores_evaluated')
+            if not np.all(np.abs(got - want) <= 1e-9 * (1 + abs(want))):
+                ctx.violation('optimisation_table_pairs_estimates',
+                              'score_is_not_the_score_of_the_estimate',
+                              {'run': r + 1, 'listed': got[:3],
+                               'log_posterior(estimates)': want,
+                               'from optimiser': s}, feats)
                 return
 
 
